@@ -15,7 +15,8 @@ CONSTANTS PrintTypes,            \* source types printed
           FmtAlphabet, FmtLen,   \* format descriptions
           DestAlphabet, DestLen, DestSeps, DestMax,
           RDsts, RBases, RAlphabet, RLen,   \* numerals read with a range
-          VecTypes, VecLen       \* element types / lengths of vectors
+          VecTypes, VecLen,      \* element types / lengths of vectors
+          SinkTypes, SinkCaps, SinkLefts   \* prints through a sink: types, bytes taken per call, total capacities
 
 S(b) == [kind |-> "int", sg |-> 1, bits |-> b]
 U(b) == [kind |-> "int", sg |-> 0, bits |-> b]
@@ -72,6 +73,9 @@ MCInit ==
        /\ (api = "array") => (sk = "array")
        /\ (api = "data") => (sk = "scalar")
        /\ obs = [a |-> "init", arg |-> [kind |-> "vec", api |-> api, sk |-> sk, src |-> src, dk |-> dk, dst |-> dst], exp |-> [x |-> 0]]
+  \/ \E t \in SinkTypes, pol \in {"all", "part", "cap"}, cap \in SinkCaps, left \in SinkLefts :
+       /\ (pol # "cap") => (cap = CHOOSE c \in SinkCaps : TRUE)
+       /\ obs = [a |-> "init", arg |-> [kind |-> "sink", src |-> t, pol |-> pol, cap |-> cap, left |-> left], exp |-> [x |-> 0]]
 
 MCNext ==
   /\ obs.a = "init"
@@ -84,13 +88,18 @@ MCNext ==
        [] obs.arg.kind = "rtext" ->
             \E s \in StringsOver(RAlphabet, obs.arg.first, RLen), lo \in RPicks(obs.arg.dst), hi \in RPicks(obs.arg.dst) :
                RText(obs.arg.dst, obs.arg.base, s, lo, hi)
+       [] obs.arg.kind = "sink" ->
+            \/ \E v \in Picks(obs.arg.src), api \in {"value", "conv"} :
+                  PrintSink(api, obs.arg.src, v, obs.arg.pol, obs.arg.cap, obs.arg.left)
+            \/ \E n \in 0..2 : \E vs \in [1..n -> Picks(obs.arg.src)] :
+                  PrintVec(obs.arg.src, vs, obs.arg.pol, obs.arg.cap, obs.arg.left)
        [] obs.arg.kind = "vec" ->
             \E n \in 0..VecLen : \E vs \in [1..n -> Picks(obs.arg.src)] :
                /\ (obs.arg.sk = "scalar" => n = 1)
                /\ Vec(obs.arg.api, obs.arg.sk, obs.arg.src, obs.arg.dk, obs.arg.dst, vs)
 MCSpec == MCInit /\ [][MCNext]_vars
 
-XTypeOK == obs.a \in {"init", "print", "fmt", "fmtlist", "dest", "rtext", "vec"}
+XTypeOK == obs.a \in {"init", "print", "printvec", "fmt", "fmtlist", "dest", "rtext", "vec"}
 
 (* hand cases (independent of the type table) *)
 ASSUME
